@@ -78,6 +78,14 @@ def replay(path):
         from ..ch import runner
 
         return runner.replay_violation(path)
+    if "op" not in pl:
+        # const-ness evaluation (pv/ty/constness.py): deterministic, re-evaluate all of them
+        from ..ty import constness
+
+        viol, _ = constness.run()
+        hit = [v for v in viol if v["key"] == rec.get("key")]
+        print(rec.get("key"), "->", hit[0]["what"] if hit else "not reproduced")
+        return 1 if hit else 0
     from ..ty import e3
 
     tb = e3.Tables()
